@@ -14,7 +14,30 @@
 #include "esl_dmatrix.h"
 #include "esl_quicksort.h"
 #include <unistd.h>
+#include <signal.h>
+#include <fcntl.h>
+#include <sys/stat.h>
 
+/* Bounding the cost of a library that dies or loops on most inputs. Every computing op appends 's' to a marker file in the
+ * working directory (private to one check run) when it starts and 'e' when it has answered; #s - #e is the number of ops
+ * that killed the process so far (sanitizer abort, signal, or the 2-minute alarm below). After DEATH_LIMIT of them the
+ * remaining computing ops answer `death-limit` at once: the run then ends in minutes with the violations already found
+ * instead of restarting the harness once per remaining case. */
+#define OPS_MARKER  "h_weights.ops"
+#define DEATH_LIMIT 25
+static void mark(char c)
+{
+  int fd = open(OPS_MARKER, O_WRONLY | O_CREAT | O_APPEND, 0600);
+  if (fd >= 0) { if (write(fd, &c, 1) < 0) {} close(fd); }
+}
+static int deaths_so_far(void)
+{
+  static int n = -1; FILE *f; int c;
+  if (n >= 0) return n;
+  n = 0;
+  if ((f = fopen(OPS_MARKER, "r")) != NULL) { while ((c = fgetc(f)) != EOF) n += (c == 's') - (c == 'e'); fclose(f); }
+  return n;
+}
 #define MAXROWS 4096
 
 static int            g_mode;          /* 0 text, 1 amino, 2 dna, 3 rna */
@@ -110,10 +133,24 @@ static void out_filtered(ESL_MSA *msa, ESL_MSA *nw, int status)
   free(kept);
 }
 
+static void do_op(void);
 static void h_op(void)
 {
   const char *op = h_words[0];
-  alarm(120);   /* an op that does not come back is reported as a fault (signal 14) after 2 minutes, not after the batch timeout */
+  int computing = strcmp(op, "abc") && strcmp(op, "row") && strcmp(op, "rf") && strcmp(op, "clear");
+  if (computing) {
+    if (deaths_so_far() >= DEATH_LIMIT) { h_out("death-limit"); return; }
+    mark('s');
+    alarm(120);          /* default action of SIGALRM: the process dies, the engine reports `fault signal:14` */
+    do_op();
+    alarm(0);
+    mark('e');
+  } else do_op();
+}
+
+static void do_op(void)
+{
+  const char *op = h_words[0];
   if (!strcmp(op, "abc")) {
     const char *t = h_arg("t");
     clear_rows();
